@@ -1,4 +1,4 @@
-\* quick: the repaired mechanism (None skipped) satisfies the property on every table of the quick space
+\* quick: the mechanism (None skipped in Inventory columns) satisfies the property on every table of the quick space
 CONSTANTS
   Space = "quick"
   Shapes <- ShapesOf
